@@ -1,12 +1,13 @@
 //@ unit c11_range_complement
 //@ props C11
 //@ kind B
-//@ def quick NR=2 VMAX=31
-//@ def thorough NR=3 VMAX=255
+//@ def quick NR=3 VMAX=63
+//@ def thorough NR=4 VMAX=255
 //@ cbmc quick --unwind 6 --unwinding-assertions
 //@ cbmc thorough --unwind 8 --unwinding-assertions
 //@ entry h_c11_range_complement
-//@ note B: bounded stand-in (never a proof of C11): tok holds 1..NR (quick 2, thorough 3) well-formed ranges in any order whose bounds lie in the narrowed universe 0..VMAX or are exactly UTF16_MAX (0x10FFFF, so that the "last element reaches the end of the code space" branch is exercised); ghost code point c in 0..VMAX+1 or UTF16_MAX; the result token is a fresh T_RANGE token as TokenFactory::createRange() / the constructor leave it
+//@ note B: bounded stand-in (never a proof of C11): tok holds 1..NR (quick 3, thorough 4) well-formed ranges, already sorted and compacted (complementRanges sorts and compacts first; that step is unit c11_range_compact and is a no-op here), whose bounds lie in the narrowed universe 0..VMAX or are exactly UTF16_MAX (0x10FFFF, so that the "last element reaches the end of the code space" branch is exercised); ghost code point c in 0..VMAX+1 or UTF16_MAX; the result token is a fresh T_RANGE token as TokenFactory::createRange() / the constructor leave it
+//@ note the calls rangeTok->addRange(a, b) are replaced by the specification of addRange (the set grows by exactly a..b; modelled as appending the pair); the real addRange is checked against that specification in unit c11_range_addrange (three inlined copies of it are beyond cbmc here: out of memory)
 //@ note checked: c in complementRanges(tok) <=> not c in tok over 0..0x10FFFF, result marked compacted and really sorted / disjoint / non-adjacent, tok keeps its set
 #define VERIF_DEFINE_GHOSTS
 #include "verif_prelude.h"
@@ -21,12 +22,23 @@ static RangeToken *verif_new_range(void)
   return &R.rt;
 }
 
+/* addRange replaced by its specification: the denoted set grows by exactly start..end (here: the pair is appended to a
+   list of INITIALSIZE elements).  The real addRange against this specification is unit c11_range_addrange. */
+static XMLInt32 RLIST[INITIALSIZE];
+static void spec_addRange(RangeToken *t, XMLInt32 start, XMLInt32 end)
+{
+  __CPROVER_assert(t->fElemCount + 2 <= INITIALSIZE, "harness capacity: result list");
+  if (t->fRanges == 0) { t->fRanges = RLIST; t->fElemCount = 0; t->fSorted = 1; }
+  t->fRanges[t->fElemCount++] = start <= end ? start : end;
+  t->fRanges[t->fElemCount++] = start <= end ? end : start;
+}
+
 /*@extract src/xercesc/util/regx/RangeToken.cpp RangeToken::complementRanges
 sub tok->getTokenType\(\) => TOKTYPE(tok)
 sub tokFactory->createRange\(\) => verif_new_range()
 method tok->sortRanges => RangeToken_sortRanges
 method tok->compactRanges => RangeToken_compactRanges
-method rangeTok->addRange => RangeToken_addRange
+method rangeTok->addRange => spec_addRange
 throws RangeToken_compactRanges
 @*/
 
@@ -37,8 +49,9 @@ void h_c11_range_complement(void)
   unsigned n; XMLInt32 c; _Bool neg;
   ARENA_INPUT() VERIF_INPUT(n); VERIF_INPUT(c); VERIF_INPUT(neg);
   VERIF_ASSUME(n >= 1 && n <= NR && ((c >= 0 && c <= VMAX + 1) || c == UTF16_MAX));
-  mk_token(&A, neg ? T_NRANGE : T_RANGE, n, 2 * NR, 0, 0);
+  mk_token(&A, neg ? T_NRANGE : T_RANGE, n, 2 * NR, 1, 1);
   for (unsigned k = 0; k < n; k++) VERIF_ASSUME(INU(A.rt.fRanges[2 * k]) && INU(A.rt.fRanges[2 * k + 1]) && A.rt.fRanges[2 * k] <= A.rt.fRanges[2 * k + 1]);
+  COMPACT(A.rt.fRanges, n)
   int member = spec_member(A.rt.fRanges, 2 * n, c);
   verif_thrown = 0;
   RangeToken *r = RangeToken_complementRanges(&A.rt, 0, 0);
